@@ -716,3 +716,163 @@ pub proof fn lemma_rd_count_same(hb: Seq<u8>, hb2: Seq<u8>)
     assert(rd(hb, 16, 8) =~= rd(rd(hb, 0, 128), 16, 8));
 }
 } // verus!
+
+verus! {
+pub proof fn lemma_sue2_swap(w: HeapW, w2: HeapW, x: nat, y: nat)
+    requires same_used_except2(w, w2, x, y)
+    ensures same_used_except2(w, w2, y, x)
+{}
+pub proof fn lemma_sue_to_2(w: HeapW, w2: HeapW, x: nat, y: nat)
+    requires same_used_except(w, w2, x)
+    ensures same_used_except2(w, w2, x, y)
+{}
+/// the count field was decremented (or left at 0) by write_item_count_down: everything else in the table is unchanged
+pub proof fn lemma_count_bytes(hb1: Seq<u8>, hb2: Seq<u8>, n: int)
+    requires htx_wf(hb1, n),
+        htx_count(hb1) > 0 ==> hb2 == write_at(hb1, 24, le_bytes((htx_count(hb1) - 1) as nat, 8)),
+        htx_count(hb1) == 0 ==> hb2 == hb1,
+    ensures htx_wf(hb2, n), forall|i: int| 0 <= i < n ==> #[trigger] bucket(hb2, i) == bucket(hb1, i),
+        htx_count(hb1) > 0 ==> htx_count(hb2) == htx_count(hb1) - 1, htx_count(hb1) == 0 ==> htx_count(hb2) == 0
+{
+    if htx_count(hb1) > 0 {
+        lemma_le_val_bound(rd(hb1, 24, 8));
+        assert(pow256(8) == 0x1_0000_0000_0000_0000) by { reveal_with_fuel(pow256, 9); }
+        lemma_count_write(hb1, n, (htx_count(hb1) - 1) as nat);
+    }
+}
+} // verus!
+
+verus! {
+/// del_kt, key found: everything the real function establishes (callee postconditions, w-generic) ==> the map-level result
+#[verifier::rlimit(300)]
+pub proof fn lemma_del_kt_found(m: MapB, m2: MapB, kb1: Seq<u8>, hb1: Seq<u8>, w0: MapW, key: Seq<u8>, ko: nat, po: nat, i0: int)
+    requires
+        map_ok(m, w0), m2.n == m.n, m2.kpm == m.kpm, m2.vpm == m.vpm, 0 <= bucket_of(key, m.n) < m.n,
+        0 <= i0 < w0.cs[bucket_of(key, m.n)].len(), w0.cs[bucket_of(key, m.n)][i0] == ko, kkey(w0.kw, ko) == key, po == prev_of(w0.cs[bucket_of(key, m.n)], i0),
+        is_key(w0.kw, ko),
+        // value record freed
+        forall|wv: HeapW| #[trigger] val_at(m.vb, m.vpm, wv, kvoff(w0.kw, ko)) ==> heap_ok(m2.vb, m.vpm, w_push(wv, kvoff(w0.kw, ko))),
+        // predecessor relinked in place (i0 > 0), key file otherwise untouched before the key record is freed
+        i0 == 0 ==> kb1 == m.kb,
+        i0 > 0 ==> (forall|wk: HeapW| #[trigger] heap_ok(m.kb, m.kpm, wk) && key_pre(m.kb, m.kpm, wk, false, po) ==> ({
+            let t = w_write(wk, m.kb.len(), false, po, key_need(kkey(w0.kw, po), kvoff(w0.kw, po), knext(w0.kw, ko)), SlotC::Key(kkey(w0.kw, po), kvoff(w0.kw, po), knext(w0.kw, ko)));
+            heap_ok(kb1, m.kpm, t.0) && t.1 == po
+            && (key_need(kkey(w0.kw, po), kvoff(w0.kw, po), knext(w0.kw, ko)) > wk.slots[po].size ==> exists|ba: Seq<u8>| #[trigger] heap_ok(ba, m.kpm, w_push(wk, po)) && ba.len() == m.kb.len())
+        })),
+        // key record freed
+        forall|wk: HeapW| #[trigger] key_at(kb1, m.kpm, wk, ko) ==> heap_ok(m2.kb, m.kpm, w_push(wk, ko)),
+        // table
+        htx_wf(m2.hb, m2.n),
+        bucket(m2.hb, bucket_of(key, m.n)) == (if i0 == 0 { knext(w0.kw, ko) } else { bucket(m.hb, bucket_of(key, m.n)) }),
+        forall|j: int| 0 <= j < m.n && j != bucket_of(key, m.n) ==> #[trigger] bucket(m2.hb, j) == bucket(m.hb, j),
+        htx_count(m.hb) > 0 ==> htx_count(m2.hb) == htx_count(m.hb) - 1,
+        htx_count(m.hb) == 0 ==> htx_count(m2.hb) == 0,
+        forall|w: MapW, o: nat| #[trigger] map_ok(m, w) && #[trigger] is_key(w.kw, o) ==> kkey(w.kw, o).len() <= 0x1_0000,
+    ensures
+        forall|w: MapW| #[trigger] map_ok(m, w) ==>
+            lookup(w, key) == Some(vval(w0.vw, kvoff(w0.kw, ko)))
+            && exists|w2: MapW| #[trigger] map_ok(m2, w2) && is_remove(w, w2, key)
+{
+    let b = bucket_of(key, m.n);
+    assert forall|w: MapW| #[trigger] map_ok(m, w) implies
+        lookup(w, key) == Some(vval(w0.vw, kvoff(w0.kw, ko)))
+        && exists|w2: MapW| #[trigger] map_ok(m2, w2) && is_remove(w, w2, key) by {
+        lemma_del_kt_found_one(m, m2, kb1, hb1, w0, w, key, ko, po, i0);
+    }
+}
+
+#[verifier::rlimit(300)]
+pub proof fn lemma_del_kt_found_one(m: MapB, m2: MapB, kb1: Seq<u8>, hb1: Seq<u8>, w0: MapW, w: MapW, key: Seq<u8>, ko: nat, po: nat, i0: int)
+    requires
+        map_ok(m, w0), map_ok(m, w), m2.n == m.n, m2.kpm == m.kpm, m2.vpm == m.vpm, 0 <= bucket_of(key, m.n) < m.n,
+        0 <= i0 < w0.cs[bucket_of(key, m.n)].len(), w0.cs[bucket_of(key, m.n)][i0] == ko, kkey(w0.kw, ko) == key, po == prev_of(w0.cs[bucket_of(key, m.n)], i0),
+        is_key(w0.kw, ko),
+        forall|wv: HeapW| #[trigger] val_at(m.vb, m.vpm, wv, kvoff(w0.kw, ko)) ==> heap_ok(m2.vb, m.vpm, w_push(wv, kvoff(w0.kw, ko))),
+        i0 == 0 ==> kb1 == m.kb,
+        i0 > 0 ==> (forall|wk: HeapW| #[trigger] heap_ok(m.kb, m.kpm, wk) && key_pre(m.kb, m.kpm, wk, false, po) ==> ({
+            let t = w_write(wk, m.kb.len(), false, po, key_need(kkey(w0.kw, po), kvoff(w0.kw, po), knext(w0.kw, ko)), SlotC::Key(kkey(w0.kw, po), kvoff(w0.kw, po), knext(w0.kw, ko)));
+            heap_ok(kb1, m.kpm, t.0) && t.1 == po
+            && (key_need(kkey(w0.kw, po), kvoff(w0.kw, po), knext(w0.kw, ko)) > wk.slots[po].size ==> exists|ba: Seq<u8>| #[trigger] heap_ok(ba, m.kpm, w_push(wk, po)) && ba.len() == m.kb.len())
+        })),
+        forall|wk: HeapW| #[trigger] key_at(kb1, m.kpm, wk, ko) ==> heap_ok(m2.kb, m.kpm, w_push(wk, ko)),
+        htx_wf(m2.hb, m2.n),
+        bucket(m2.hb, bucket_of(key, m.n)) == (if i0 == 0 { knext(w0.kw, ko) } else { bucket(m.hb, bucket_of(key, m.n)) }),
+        forall|j: int| 0 <= j < m.n && j != bucket_of(key, m.n) ==> #[trigger] bucket(m2.hb, j) == bucket(m.hb, j),
+        htx_count(m.hb) > 0 ==> htx_count(m2.hb) == htx_count(m.hb) - 1,
+        htx_count(m.hb) == 0 ==> htx_count(m2.hb) == 0,
+        forall|w: MapW, o: nat| #[trigger] map_ok(m, w) && #[trigger] is_key(w.kw, o) ==> kkey(w.kw, o).len() <= 0x1_0000,
+    ensures
+        lookup(w, key) == Some(vval(w0.vw, kvoff(w0.kw, ko))),
+        exists|w2: MapW| #[trigger] map_ok(m2, w2) && is_remove(w, w2, key)
+{
+    let b = bucket_of(key, m.n);
+    let s = w.cs[b];
+    lemma_chain_unique(m, w0, w, b);
+    assert(chain_ok(w.kw, bucket(m.hb, b), s, b, m.n));
+    assert(chain_ok(w0.kw, bucket(m.hb, b), s, b, m.n));
+    lemma_chain_member(w.kw, bucket(m.hb, b), s, b, m.n, i0);
+    lemma_chain_member(w0.kw, bucket(m.hb, b), s, b, m.n, i0);
+    lemma_key_same(m, w0, w, ko);
+    lemma_lookup_found(m, w, key, ko);
+    lemma_val_link(w.kw, w.vw, w.vown, ko);
+    lemma_val_link(w0.kw, w0.vw, w0.vown, ko);
+    let voff = kvoff(w.kw, ko);
+    lemma_val_same(m, w0, w, voff);
+    assert(val_at(m.vb, m.vpm, w.vw, voff));
+    let vw2 = w_push(w.vw, voff);
+    assert(heap_ok(m2.vb, m.vpm, vw2));
+    lemma_push_effect(m.vb, m.vpm, w.vw, voff);
+    lemma_total_ge(w.cs, b);
+    if i0 > 0 {
+        let p = s[i0 - 1];
+        lemma_chain_member(w.kw, bucket(m.hb, b), s, b, m.n, i0 - 1);
+        lemma_chain_member(w0.kw, bucket(m.hb, b), s, b, m.n, i0 - 1);
+        lemma_key_same(m, w0, w, p);
+        lemma_key_decodes(m.kb, m.kpm, w.kw, p);
+        lemma_key_decodes(m.kb, m.kpm, w.kw, ko);
+        let kc = SlotC::Key(kkey(w.kw, p), kvoff(w.kw, p), knext(w.kw, ko));
+        let kn = key_need(kkey(w.kw, p), kvoff(w.kw, p), knext(w.kw, ko));
+        lemma_roundup_key(kkey(w.kw, p), kvoff(w.kw, p), knext(w.kw, ko));
+        assert(heap_ok(m.kb, m.kpm, w.kw) && key_pre(m.kb, m.kpm, w.kw, false, p));
+        let tk = w_write(w.kw, m.kb.len(), false, p, kn, kc);
+        assert(heap_ok(kb1, m.kpm, tk.0) && tk.1 == p);
+        lemma_write_effect(m.kb, m.kpm, w.kw, p, kn, kc);
+        assert(kn <= w.kw.slots[p].size);
+        assert(tk.0.slots.dom().contains(ko) && tk.0.slots[ko] == w.kw.slots[ko]);
+        assert(key_at(kb1, m.kpm, tk.0, ko));
+        let kw2 = w_push(tk.0, ko);
+        assert(heap_ok(m2.kb, m.kpm, kw2));
+        lemma_push_effect(kb1, m.kpm, tk.0, ko);
+        lemma_sue_compose(w.kw, tk.0, kw2, p, ko);
+        lemma_sue2_swap(w.kw, kw2, p, ko);
+        lemma_map_del(m, m2, w, kw2, vw2, ko, i0);
+        let w2 = MapW { kw: kw2, vw: vw2, cs: w.cs.update(b, rm(s, i0)), vown: w.vown.remove(voff) };
+        assert(map_ok(m2, w2) && is_remove(w, w2, key));
+    } else {
+        assert(key_at(kb1, m.kpm, w.kw, ko));
+        let kw2 = w_push(w.kw, ko);
+        assert(heap_ok(m2.kb, m.kpm, kw2));
+        lemma_push_effect(m.kb, m.kpm, w.kw, ko);
+        lemma_sue_to_2(w.kw, kw2, ko, 0);
+        lemma_map_del(m, m2, w, kw2, vw2, ko, i0);
+        let w2 = MapW { kw: kw2, vw: vw2, cs: w.cs.update(b, rm(s, i0)), vown: w.vown.remove(voff) };
+        assert(map_ok(m2, w2) && is_remove(w, w2, key));
+    }
+}
+} // verus!
+
+verus! {
+/// after the predecessor `p` was rewritten in place, the record `ko` is still a key record of the resulting heap
+pub proof fn lemma_prev_rewrite_keeps(kb: Seq<u8>, kb1: Seq<u8>, pm: PieceMgr, wk: HeapW, p: nat, ko: nat, kn: nat, kc: SlotC)
+    requires heap_ok(kb, pm, wk), is_key(wk, p), is_key(wk, ko), p != ko, is_slot_size(kn), kc is Key,
+        heap_ok(kb1, pm, w_write(wk, kb.len(), false, p, kn, kc).0), w_write(wk, kb.len(), false, p, kn, kc).1 == p,
+        kn > wk.slots[p].size ==> exists|ba: Seq<u8>| #[trigger] heap_ok(ba, pm, w_push(wk, p)) && ba.len() == kb.len(),
+    ensures key_at(kb1, pm, w_write(wk, kb.len(), false, p, kn, kc).0, ko)
+{
+    lemma_write_effect(kb, pm, wk, p, kn, kc);
+    let t = w_write(wk, kb.len(), false, p, kn, kc);
+    assert(kn <= wk.slots[p].size);
+    assert(wk.slots.dom().contains(ko) && !(wk.slots[ko].c is Free));
+    assert(t.0.slots.dom().contains(ko));
+}
+} // verus!
